@@ -491,6 +491,52 @@ func VerifC07_NoSelfOverlap() {
 	rt.Reach("overlap-end")
 }
 
+// a re-submission while the task executes, whose max delay expires before the
+// execution ends: the schedule handler finds the task executing - the
+// submission is carried over, not lost
+func VerifC07_ResubmittedWithShortMaxDelay() {
+	rt.SchedYieldOnly(true)
+	m := c07Reset()
+	u := rt.Unit()
+	running, runs := 0, 0
+	gate := make(chan struct{})
+	var t *Task
+	t = m.NewTask("t", func(context.Context, *Task) error {
+		running++
+		rt.Assert(running == 1, "shortdelay/never-two-activations")
+		runs++
+		if runs == 1 {
+			<-gate
+		}
+		running--
+		return nil
+	}).MaxDelay(u)
+	go func() {
+		for {
+			taskTimeslot <- struct{}{}
+		}
+	}()
+	go taskQueueHandler()
+	go taskScheduleHandler()
+	t.Queue()
+	time.Sleep(u / 2) // the first activation is inside its function
+	rt.Assert(runs == 1, "shortdelay/first-activation-started")
+	switch rt.Choice("resubmit", 3) {
+	case 0:
+		t.Queue()
+	case 1:
+		t.QueuePrioritized()
+	case 2:
+		t.StartASAP()
+	}
+	time.Sleep(3 * u) // the max delay of the re-submission expires during the run
+	rt.Assert(runs == 1, "shortdelay/second-activation-waits")
+	close(gate)
+	time.Sleep(4 * u)
+	rt.Assert(runs == 2, "shortdelay/resubmission-executed-after-the-first-returned")
+	rt.Reach("shortdelay-end")
+}
+
 // the first activation runs longer than the execution-wait limit while the
 // task is re-submitted: still no overlap, and the re-submission is not lost
 func VerifC07_LongRunningResubmitted() {
@@ -518,10 +564,9 @@ func VerifC07_LongRunningResubmitted() {
 	t.Queue()
 	rt.Quiesce(time.Second)
 	t.Queue()
-	// known finding: the queue handler gives up waiting after maxExecutionWait,
-	// takes the re-submitted task from the queue and drops it because it is
-	// still executing
-	rt.Region("C07-resubmission-lost-after-execution-wait-limit", true)
+	// (the queue handler gives up waiting after maxExecutionWait and takes the
+	// re-submitted task from the queue while it is still executing: the
+	// submission is carried over to after the run - a former known finding)
 	rt.Quiesce(2 * time.Minute) // longer than maxExecutionWait
 	close(gate)
 	rt.Quiesce(10 * time.Minute)
